@@ -3,7 +3,7 @@
    Server::handle_message on request bytes [req], reply capacity [cap], transport [k],
    with the filesystem answering [fr] (an arbitrary oracle value). *)
 From Coq Require Import List String NArith Bool.
-From FB Require Import Lib.Bytes Model.Server Spec.Requests Spec.WfReq Proofs.ServerPerform Proofs.ServerReply Proofs.ServerDecide Proofs.ServerHandle Proofs.ServerDecodeLib Proofs.ServerDecode.
+From FB Require Import Lib.Bytes Model.Server Spec.Requests Spec.WfReq Proofs.ServerPerform Proofs.ServerReply Proofs.ServerDecide Proofs.ServerHandle Proofs.ServerDecodeLib Proofs.ServerDecode Proofs.ServerBounds.
 Import ListNotations.
 Local Open Scope N_scope.
 
@@ -58,6 +58,36 @@ Theorem C01_answer_exactly_one_message : forall cfg q fr cap du dg,
             /\ wellformed_reply (q_unique q) p.
 Proof. exact answer_one_wellformed_packet. Qed.
 
+(* the server never asks the writer for more than the supplied reply buffer: whatever the request
+   bytes, the filesystem answer and the transport, every packet handed to the fd and the bytes
+   placed in the virtio descriptors are at most [cap] bytes (model-level content of "never touches
+   memory outside the supplied buffers") *)
+Theorem C01_within_capacity : forall cfg k cap req fr,
+  (forall p, In p (o_packets (h_outcome (handle cfg k cap req fr))) -> blen p <= cap) /\
+  blen (o_mem (h_outcome (handle cfg k cap req fr))) <= cap.
+Proof. exact handle_within_capacity. Qed.
+
+(* the virtio twin of C01_answer_exactly_one_message: nothing goes to an fd, the descriptor memory
+   holds one complete reply carrying the request's unique, and handle_message returns its length
+   (Ok(0) for DESTROY = 38, whose reply result is dropped) *)
+Theorem C01_answer_exactly_one_message_virtio : forall cfg q fr cap du dg,
+  wf_req q = true -> cfg_remap cfg = RemapOk du dg -> env_ok cfg cap q = true ->
+  needs_answer (q_op q) = true -> cap < 2 ^ 32 -> fs_ok fr ->
+  action_size (snd (fst (decide cfg (encode_req q) fr cap))) <= cap ->
+  let o := h_outcome (handle cfg Virtio cap (encode_req q) fr) in
+  o_packets o = [] /\ wellformed_reply (q_unique q) (o_mem o) /\
+  o_res o = if q_op q =? 38 then ROk 0 else ROk (blen (o_mem o)).
+Proof. exact answer_one_message_virtio. Qed.
+
+Example C01_virtio_nonvacuous :
+  let cfg := {| cfg_minor := 33; cfg_remap := RemapOk 0 0; cfg_vu_req := false; cfg_fsopt_mask := 0 |} in
+  wf_req sample_rename2 = true /\ env_ok cfg 4096 sample_rename2 = true /\
+  needs_answer (q_op sample_rename2) = true /\
+  (action_size (snd (fst (decide cfg (encode_req sample_rename2) (FErr (Os 13)) 4096))) <=? 4096) = true /\
+  blen (o_mem (h_outcome (handle cfg Virtio 4096 (encode_req sample_rename2) (FErr (Os 13))))) = 16.
+Proof. vm_compute. repeat split; reflexivity. Qed.
+
+
 (* non-vacuity: the hypotheses are satisfiable and replies do occur *)
 Example C01_nonvacuous :
   fs_ok (FErr (Os 2)) /\
@@ -73,3 +103,5 @@ Print Assumptions C01_forget_silent.
 Print Assumptions C01_actions_wellformed.
 Print Assumptions C01_answer_required.
 Print Assumptions C01_answer_exactly_one_message.
+Print Assumptions C01_within_capacity.
+Print Assumptions C01_answer_exactly_one_message_virtio.
